@@ -18,6 +18,8 @@
 //!   spawn    every line is evaluated by a new process (`HIST_MODE=one`), i.e. new hash seeds and a
 //!            fraction table that nobody has forced yet
 //!   one      like fresh, single line given as argv[1..5]
+//!   place    every line is evaluated with the text at 12 placements in memory (see `placements`)
+//!   cold     cold-start thread round (see `cold_mode`)
 //!   refs     prints the names of the input's recipe references (`@@name{}`), hex, comma separated
 //! HIST_CWD (any mode): change to this working directory first (ambient perturbation; together with
 //!   changed environment variables it must not change any result)
@@ -199,6 +201,96 @@ fn threads_mode(path: &str) {
     out.flush().unwrap();
 }
 
+/// "cold start": HIST_THREADS threads share one parser in a process that has not lexed anything
+/// yet; every thread evaluates EVERY pool item, in file order, and all threads are lined up again
+/// before each item by a spinning barrier (tens of nanoseconds apart instead of the microseconds
+/// of a futex wake-up), so that the first time the process meets a character, several threads
+/// meet it together.  Output as in `threads`.
+fn cold_mode(path: &str) {
+    use std::sync::atomic::{AtomicUsize, Ordering};
+    quiet_panics();
+    let text = std::fs::read_to_string(path).expect("pool file");
+    let pool: Arc<Vec<(String, String)>> = Arc::new(
+        text.lines()
+            .filter(|l| !l.is_empty())
+            .map(|l| {
+                let f: Vec<&str> = l.split(' ').collect();
+                (f[0].to_string(), unhex(f[1]))
+            })
+            .collect(),
+    );
+    let nthreads = env_u64("HIST_THREADS", 16) as usize;
+    let bits = env_u64("HIST_EXT", 0) as u32;
+    let bundled = std::env::var("HIST_CONV").map(|v| v == "b").unwrap_or(false);
+    let parser = Arc::new(make_parser(bits, bundled));
+    let arrived = Arc::new(AtomicUsize::new(0));
+    let mut handles = Vec::new();
+    for _ in 0..nthreads {
+        let (pool, parser, arrived) = (pool.clone(), parser.clone(), arrived.clone());
+        handles.push(std::thread::spawn(move || {
+            let mut seen: Vec<u128> = Vec::with_capacity(pool.len());
+            for (i, (op, input)) in pool.iter().enumerate() {
+                arrived.fetch_add(1, Ordering::AcqRel);
+                let target = (i + 1) * nthreads;
+                let mut spins = 0u32;
+                while arrived.load(Ordering::Acquire) < target {
+                    spins += 1;
+                    if spins > 20_000 {
+                        std::thread::yield_now();
+                    } else {
+                        std::hint::spin_loop();
+                    }
+                }
+                seen.push(digest(&canon(&parser, op, input)));
+            }
+            seen
+        }));
+    }
+    let all: Vec<Vec<u128>> = handles.into_iter().map(|h| h.join().expect("worker thread died")).collect();
+    let out = std::io::stdout();
+    let mut out = std::io::BufWriter::new(out.lock());
+    use std::io::Write;
+    for (i, (op, input)) in pool.iter().enumerate() {
+        let alone = digest(&canon(&parser, op, input));
+        let bad: Vec<u128> = all.iter().map(|v| v[i]).filter(|d| *d != alone).collect();
+        writeln!(
+            out,
+            "{:032x} {} {} {}",
+            alone,
+            all.len(),
+            bad.len(),
+            bad.first().map(|d| format!("{:032x}", d)).unwrap_or_else(|| "-".into())
+        )
+        .unwrap();
+    }
+    out.flush().unwrap();
+}
+
+/// "buffer placement": the same text at 9 consecutive offsets of a larger buffer (all 8 residues of
+/// the start address modulo 8), in the middle of a longer String, and behind a byte order mark that
+/// the caller stripped.  -> (label, start address mod 8, canonical text) per variant
+fn placements(parser: &CooklangParser, op: &str, text: &str) -> Vec<(String, usize, String)> {
+    let mut v = Vec::new();
+    for k in 0..=8usize {
+        let mut s = String::with_capacity(k + text.len() + 16);
+        for _ in 0..k {
+            s.push('#');
+        }
+        s.push_str(text);
+        let t = &s[k..];
+        v.push((format!("offset{}", k), t.as_ptr() as usize % 8, canon(parser, op, t)));
+    }
+    for (label, pre, post) in [("middle13", "Filler text.\n", "\n\nTail @step{1}.\n"), ("middle5", "abc\n\n", " [- x -] @z")] {
+        let s = format!("{}{}{}", pre, text, post);
+        let t = &s[pre.len()..pre.len() + text.len()];
+        v.push((label.to_string(), t.as_ptr() as usize % 8, canon(parser, op, t)));
+    }
+    let s = format!("\u{FEFF}{}", text);
+    let t = &s[3..];
+    v.push(("after_bom".to_string(), t.as_ptr() as usize % 8, canon(parser, op, t)));
+    v
+}
+
 fn main() {
     // ambient perturbation: run everything below from another working directory (case files are
     // given by absolute path); children of `spawn` inherit it together with the environment
@@ -212,6 +304,37 @@ fn main() {
     let args: Vec<String> = std::env::args().collect();
     match mode.as_str() {
         "threads" => threads_mode(&args[1]),
+        "cold" => cold_mode(&args[1]),
+        // `<digest at offset 0> <variants> <variants that differ> <label:digest of the first|-> <residues mod 8 seen>`
+        // with HIST_FULL=1: `<label> <canonical text>` of offset0 and of the first differing variant, tab separated
+        "place" => {
+            let mut parsers: HashMap<(u32, bool), CooklangParser> = HashMap::new();
+            drive(|f| {
+                let key = (f[2].parse::<u32>().unwrap(), f[3] == "b");
+                let p = parsers.entry(key).or_insert_with(|| make_parser(key.0, key.1));
+                let v = placements(p, f[0], &unhex(f[1]));
+                let base = &v[0].2;
+                let bad: Vec<&(String, usize, String)> = v.iter().filter(|x| &x.2 != base).collect();
+                let mut res: Vec<usize> = v.iter().map(|x| x.1).collect();
+                res.sort();
+                res.dedup();
+                if full {
+                    match bad.first() {
+                        Some(b) => format!("offset0 {}\t{} {}", base, b.0, b.2),
+                        None => format!("offset0 {}", base),
+                    }
+                } else {
+                    format!(
+                        "{:032x} {} {} {} {}",
+                        digest(base),
+                        v.len(),
+                        bad.len(),
+                        bad.first().map(|b| format!("{}@{}:{:032x}", b.0, b.1, digest(&b.2))).unwrap_or_else(|| "-".into()),
+                        res.len()
+                    )
+                }
+            });
+        }
         "one" => {
             quiet_panics();
             let p = make_parser(args[3].parse().unwrap(), args[4] == "b");
